@@ -24,7 +24,7 @@ ASSUMPTIONS = [
 
 
 def generate(rng, tier):
-    return gen.gen_case(rng, {"p_demux": 0.12, "p_mixed_pair": 0.02, "p_comments_two_files": 0.5})
+    return gen.gen_case(rng, {"p_demux": 0.12, "p_mixed_pair": 0.02})
 
 
 def evaluate(case, ctx):
